@@ -450,11 +450,58 @@ def run(prog, rep, tier):
             f_sig, t_sig = _ret_sig(arms_.get(0)), _ret_sig(t[3])
             if neg:
                 f_sig, t_sig = t_sig, f_sig
-            sites_.append((b.blocks[bb].get("l"), f_sig, t_sig))
+            sites_.append((b.blocks[bb].get("l"), f_sig, t_sig, bb))
+    # A fallback that cannot be reached is not part of the agreement: the "name is only leading junk"
+    # fallback sits behind  !name.ends_with(T)  and  name.trim_start_matches(L).is_empty(); a non-empty
+    # name made only of L-characters ends with one, so with L a subset of T that test is never true.
+    dead_lines = set()
+    ew = [c for c in b.live_calls() if c.d.endswith("::ends_with") and isinstance(const_of(b, c.args[1]), list)]
+    tsm = [c for c in b.live_calls() if c.d.endswith("::trim_start_matches") and isinstance(const_of(b, c.args[1]), list)]
+    for tc in tsm:
+        Lset = set(const_of(b, tc.args[1]))
+        for ec in ew:
+            Tset = set(const_of(b, ec.args[1]))
+            if not Lset <= Tset or ec.target is None:
+                continue
+            te_ = b.term(ec.target)
+            if te_[0] != "switch" or op_local(te_[1]) != ec.dest[0]:
+                continue
+            arms_e = {int(v): tb for v, tb in te_[2]}
+            not_ends = arms_e.get(0)
+            if not_ends is None:
+                continue
+            # every way to the leading-junk code goes through "does not end with T" or through
+            # "trailing T trimmed off and the rest is not empty" (whose last character is then not in T)
+            gates = {not_ends}
+            for tec in b.live_calls():
+                if tec.d.endswith("::trim_end_matches") and isinstance(const_of(b, tec.args[1]), list) and Lset <= set(const_of(b, tec.args[1])):
+                    for ic2 in b.live_calls():
+                        if ic2.d.endswith("::is_empty") and ic2.target is not None and any(x[0] == "call" and x[1] == tec.bb for x in b.origins(ic2.args[0], through_calls=("::deref",))):
+                            ti2 = b.term(ic2.target)
+                            if ti2[0] == "switch" and op_local(ti2[1]) == ic2.dest[0]:
+                                ne_t = {int(v): tb for v, tb in ti2[2]}.get(0)
+                                if ne_t is not None:
+                                    gates.add(ne_t)
+            if tc.bb in b.reachable(0, gates):
+                continue
+            # the is_empty() test of the trimmed string and its true edge
+            for ic in b.live_calls():
+                if ic.d.endswith("str::is_empty") or ic.d.endswith("::is_empty"):
+                    if any(x[0] == "call" and x[1] == tc.bb for x in b.origins(ic.args[0], through_calls=("::deref",))) and ic.target is not None:
+                        ti_ = b.term(ic.target)
+                        if ti_[0] == "switch" and op_local(ti_[1]) == ic.dest[0]:
+                            arms_i = {int(v): tb for v, tb in ti_[2]}
+                            empty_t = ti_[3] if 0 in arms_i else arms_i.get(1)
+                            for (ln, f_, t_, swbb) in [(x[0], x[1], x[2], x[3]) for x in sites_ if len(x) > 3]:
+                                if empty_t is not None and b.dominates(empty_t, swbb):
+                                    dead_lines.add(ln)
     sigs = {}
-    for ln, f_, t_ in sites_:
+    for st_ in sites_:
+        ln, f_, t_ = st_[0], st_[1], st_[2]
+        if ln in dead_lines:
+            continue
         sigs.setdefault((f_, t_), []).append(ln)
-    rep.examined(R168, FN + "|fallbacks", sample={"sites": len(sites_), "distinct_mappings": [(str(k_), v_) for k_, v_ in sigs.items()]})
+    rep.examined(R168, FN + "|fallbacks", sample={"sites": len(sites_), "unreachable_sites_excluded": sorted(dead_lines), "distinct_mappings": [(str(k_), v_) for k_, v_ in sigs.items()]})
     if len(sites_) < 4:
         raise CheckerError("pathbuf_to_filetype_impl: only %d direct tests of unparseable_are_text (6 on the pinned tree)" % len(sites_))
     if len(sigs) > 1:
